@@ -402,7 +402,8 @@ mod verif_native {
 
     /// bound: every sequence of 0..=5 members over the five standard names and one foreign name with the standard types
     /// (9331 sequences, including all 326 duplicate-free orderings of subsets and all repeats); for each of the 31
-    /// well-formed domains every single-position substitution by 10 other types; a document without EIP712Domain
+    /// well-formed domains every single-position substitution by 10 other types and by up to 12 near-miss spellings of the
+    /// standard name (letter case, padding, NUL, plural, truncation, combining mark, homoglyph); a document without EIP712Domain
     #[test]
     fn nb_domain_types_enumerated() {
         let names = ["name", "version", "chainId", "verifyingContract", "salt", "foo"];
@@ -454,6 +455,30 @@ mod verif_native {
                 }
             }
         }
+        // near misses of a standard name, in the standard position and with the standard type: foreign names, refused
+        let near = |n: &str| -> Vec<String> {
+            let mut v = vec![n.to_lowercase(), n.to_uppercase(), format!("{}{}", n[..1].to_uppercase(), &n[1..]), format!("{n} "), format!(" {n}"), format!("{n}\0"),
+                format!("{n}s"), n[..n.len() - 1].to_string(), format!("{n}\u{301}"), n.replace('a', "\u{430}"), n.replace("Id", "ID"), n.replace('C', "c")];
+            v.retain(|x| x != n);
+            v.sort();
+            v.dedup();
+            v
+        };
+        let mut near_cases = 0u64;
+        for members in &well_formed {
+            for pos in 0..members.len() {
+                for alt in near(&members[pos].0) {
+                    let mut m2 = members.clone();
+                    m2[pos].0 = alt;
+                    let defs: Defs = vec![("EIP712Domain".to_string(), m2.clone()), msg_def.clone()];
+                    let dom: Map<String, Value> = m2.iter().map(|(n, t)| (n.clone(), value_of(t))).collect();
+                    assert!(!compare(&defs, "P", &dom, &msg), "domain type with the non-standard member name {:?} was accepted", m2[pos].0);
+                    cases += 1;
+                    near_cases += 1;
+                }
+            }
+        }
+        assert!(near_cases > 500);
         let defs: Defs = vec![msg_def.clone()];
         if compare(&defs, "P", &Map::new(), &msg) { accepted += 1; }
         cases += 1;
